@@ -499,3 +499,135 @@ def r6_canonical(ctx):
 
 
 RULES += [r6_canonical]
+
+
+def r7_keyed_lookup(ctx):
+    ctx.rule("C20.r7", "linear_constraint_system::normalize: the index of the partner inequality is read with `index_map[K]` - a lookup "
+             "that DEFAULT-INSERTS 0 for an absent key - so K must be the key whose presence the enclosing test established "
+             "(`expr_set.find(K)`; expr_set and index_map receive the same keys); with another key the constraint at position 0 is "
+             "removed instead of the partner and the normal form loses it", floor=1)
+    fs = ctx.db.fns(LC, name="normalize")
+    fs = [f for f in fs if (f.get("cpk") or "").endswith("linear_constraint_system")]
+    if not ctx.need(fs, "linear_constraint_system::normalize", "C20.r7"):
+        return
+    for fn in fs[:1]:
+        body = fn["body"]
+        g = paths.guards(body)
+        d = local_decls(body)
+        maps = {dd["id"] for dd in d.values() if "unordered_map" in ((dd.get("T") or "") + (dd.get("TC") or "")) or
+                "map<" in ((dd.get("T") or "") + (dd.get("TC") or ""))}
+        # containers that receive the same key in the same block as a map (twin inserts)
+        twins = {}
+        for blk in [b for b in walk(body) if b.get("k") == "seq"]:
+            ins = []
+            for st in blk.get("b", []):
+                for c in ([st] if isinstance(st, dict) else []):
+                    if is_call(c, name="insert") and c.get("o") is not None and c.get("a"):
+                        o = strip(c["o"])
+                        if isinstance(o, dict) and o.get("k") == "ref":
+                            keys = [y for y in walk(c["a"][0]) if y.get("k") == "ref" and y.get("rk") in ("local", "param")]
+                            ins.append((o["id"], keys[0]["id"] if keys else None))
+            for (c1, k1) in ins:
+                for (c2, k2) in ins:
+                    if c1 in maps and c2 != c1 and k1 is not None and k1 == k2:
+                        twins.setdefault(c1, set()).add(c2)
+        n = 0
+        for c in walk(body):
+            if not (c.get("k") == "call" and c.get("op") == "[]" and c.get("o") is not None and c.get("a")):
+                continue
+            o = strip(c["o"])
+            if not (isinstance(o, dict) and o.get("k") == "ref" and o.get("id") in maps):
+                continue
+            n += 1
+            key = resolve_local(body, strip_move(c["a"][0]))
+            ok = False
+            why = "no membership test of the key encloses the lookup"
+            for cond, pol in g.get(id(c), ()):
+                if isinstance(cond, tuple):
+                    continue
+                p = cmp_parts(strip(cond))
+                if not p or p[0] not in ("==", "!="):
+                    continue
+                present = (p[0] == "==" and pol is False) or (p[0] == "!=" and pol is True)
+                for a, b in ((p[1], p[2]), (p[2], p[1])):
+                    a = strip(a)
+                    if is_call(a, name="find") and a.get("a") and is_call(strip(b), name="end"):
+                        cont = strip(a.get("o"))
+                        if isinstance(cont, dict) and cont.get("k") == "ref" and (cont.get("id") == o["id"] or cont.get("id") in twins.get(o["id"], ())):
+                            k2 = resolve_local(body, strip_move(a["a"][0]))
+                            if present and same_expr(key, k2):
+                                ok = True
+                            elif present:
+                                why = "the enclosing test established the presence of `%s`, the lookup uses `%s`" % (src(k2)[:30], src(key)[:30])
+            if ok:
+                ctx.ok("index_map[K] under the membership test of the same K", fn, c)
+            else:
+                ctx.bad("linear_constraint_system::normalize reads `%s` but %s: operator[] default-inserts index 0 for an absent key, so "
+                        "the constraint at position 0 is dropped from the normal form ({y<=2; x<=3; -x<=-3} normalises to {x=3; x<=3})" %
+                        (src(c)[:40], why), fn, c, sig="default-inserting-lookup-of-untested-key")
+        if n == 0:
+            ctx.ok("normalize: no default-inserting map lookup", fn, body)
+
+
+RULES += [r7_keyed_lookup]
+
+
+def r8_no_zero_coefficient(ctx):
+    ctx.rule("C20.r8", "linear_expression: a term is stored in the coefficient map only with a non-zero coefficient (the value is a "
+             "non-zero literal, or the insertion is guarded by `coefficient != 0`); is_constant(), and with it the tautology / "
+             "contradiction tests, look at the size of the map", floor=3)
+    LE = "ikos::linear_expression"
+    fs = [f for f in ctx.db.fns(LC) if (f.get("cpk") or "") == LE]
+    if not ctx.need(fs, "linear_expression methods", "C20.r8"):
+        return
+    seen = set()
+    n = 0
+    for fn in fs:
+        body = fn["body"]
+        g = paths.guards(body)
+        for c in walk(body):
+            if not (is_call(c, name="insert") and c.get("o") is not None and any(x.get("k") == "mem" and x.get("n") == "_map" for x in walk(c["o"]))):
+                continue
+            key = (fn["name"], fn.get("psig"), c.get("l"))
+            if key in seen:
+                continue
+            seen.add(key)
+            n += 1
+            # the stored coefficient: second argument of the pair constructor
+            coef = None
+            for p in walk(c.get("a", [None])[0] if c.get("a") else None):
+                if p.get("k") == "ctor" and len(p.get("a", [])) == 2:
+                    coef = strip_move(p["a"][1])
+                    break
+            if coef is None:
+                ctx.skipped("C20.r8|%s|%s" % (fn["name"], c.get("l")), rid="C20.r8")
+                continue
+            lits = [y for y in walk(coef) if y.get("k") == "lit"]
+            refs = [y for y in walk(coef) if y.get("k") == "ref" and y.get("rk") in ("param", "local")]
+            if lits and not refs and all(y.get("v") not in ("0",) for y in lits):
+                ctx.ok("%s: stores the literal coefficient %s" % (fn["name"], lits[0].get("v")), fn, c)
+                continue
+            okg = False
+            for cond, pol in g.get(id(c), ()):
+                if isinstance(cond, tuple):
+                    continue
+                p = cmp_parts(strip(cond))
+                if not p:
+                    continue
+                op, a, b = p
+                for u, v in ((a, b), (b, a)):
+                    if any(same_expr(strip(u), r) for r in refs) and any(y.get("k") == "lit" and y.get("v") == "0" for y in walk(v)) and \
+                            not any(y.get("k") == "ref" for y in walk(v)):
+                        if (op == "!=" and pol is True) or (op == "==" and pol is False):
+                            okg = True
+            if okg:
+                ctx.ok("%s: insertion guarded by coefficient != 0" % fn["name"], fn, c)
+            else:
+                ctx.bad("linear_expression::%s stores the term `%s` without having excluded a zero coefficient: 0*x then has size() 1, is "
+                        "not is_constant(), and (0*x <= -1).is_contradiction() / (0*x <= 1).is_tautology() are false" %
+                        (fn["name"], src(c)[:50]), fn, c, sig="zero-coefficient-stored:%s" % fn["name"])
+    if n == 0:
+        ctx.fail("rule C20.r8: no insertion into the coefficient map found")
+
+
+RULES += [r8_no_zero_coefficient]
